@@ -72,6 +72,24 @@ def make(rng, cls, n, cond=1e3, scale=1.0):
         A = A + np.diag(d * (np.exp(1j * rng.uniform(0, 2 * np.pi, n)) if cp else 1))
         if cls == "tril":
             A = A.T.copy()
+    elif cls in ("perm", "cperm"):
+        # zero diagonal entries on dofs whose row and column hold exactly one off-diagonal entry: weighted derangement
+        # (cyclic shifts, anti-diagonal 2x2 blocks [[0,a],[b,0]]) on some dofs, a generic coupled block on the rest
+        cp = cls == "cperm"
+        A = np.zeros((n, n), dtype=complex if cp else float)
+        k = n if n <= 3 else int(rng.integers(2, n + 1))
+        k = max(k, 2) if n >= 2 else 1
+        idx = rng.permutation(n)
+        pi, rest = idx[:k], idx[k:]
+        if k >= 2:
+            sh = np.roll(pi, 1) if rng.random() < 0.5 or k % 2 else pi.reshape(-1, 2)[:, ::-1].reshape(-1)
+            for i, j in zip(pi, sh):
+                A[i, j] = rng.uniform(0.5, 2.0) * rng.choice([-1, 1]) * (np.exp(1j * rng.uniform(0, 2 * np.pi)) if cp else 1)
+        else:
+            A[pi[0], pi[0]] = 1.5
+        if rest.size:
+            B = (_orth(rng, rest.size, cp) * _spectrum(rng, rest.size, min(cond, 100.0))) @ _orth(rng, rest.size, cp).conj().T
+            A[np.ix_(rest, rest)] = B
     else:
         raise ValueError(cls)
     return A * scale
@@ -95,7 +113,7 @@ def perturb_same_class(rng, A, cls, rel=0.3):
         return A * rng.uniform(0.5, 2.0) * rng.choice([-1, 1])
     if cls == "herm":
         return A * rng.uniform(0.5, 2.0) * rng.choice([-1, 1])
-    if cls in ("triu", "tril", "ctriu"):
+    if cls in ("triu", "tril", "ctriu", "perm", "cperm"):
         mask = A != 0
         return A * rng.uniform(0.7, 1.4, A.shape) * mask
     # general: rescale rows and columns (keeps cond within a factor 16)
